@@ -128,6 +128,7 @@ type Machine struct {
 	solverWhat     map[string]int
 	pkgSeen        map[*ssa.Package]bool
 	entPrinted     int
+	bypass         *ssa.Function
 }
 
 type Options struct {
@@ -146,6 +147,7 @@ type Options struct {
 	MapOrder     bool // map iteration starts at a nondeterministic rotation
 	NoDomain     bool // disable the byte-domain front solver
 	Thorough     bool // value of verifrt.Thorough()
+	NoModels     bool // run the real code instead of the validated models (model validation harnesses)
 }
 
 type Stats struct {
@@ -673,7 +675,9 @@ func (m *Machine) callFunction(caller *frame, fn *ssa.Function, args []value, en
 		m.ensureInit(fn.Pkg)
 		return nil
 	}
-	if h := m.lookupIntrinsic(fn); h != nil {
+	if m.bypass == fn {
+		m.bypass = nil
+	} else if h := m.lookupIntrinsic(fn); h != nil {
 		return h(m, caller, fn, args)
 	}
 	if fn.Blocks == nil {
